@@ -1,8 +1,78 @@
-(* C15 - placeholder while the proofs are being built *)
+(* C15 - Exporting a domain and reading it back yields the same topology.
+   Property theorems only: each is closed by [exact] of a lemma of Proofs/TopologyP.v
+   and followed by Print Assumptions.  The model of Domain.todict / Domain.from_file is
+   todict / from_dict in Model/TopologyM.v (the YAML / HDF5 layer is exercised by the check). *)
 From Coq Require Import String List Bool Arith ZArith.
 From V Require Import Core.Canon Model.TopologyM Proofs.TopologyP.
 Import ListNotations.
 Open Scope string_scope.
-Example C15_placeholder : no_bar "A" = true.
-Proof. reflexivity. Qed.
-Print Assumptions C15_placeholder.
+
+(* a single patch (line, square, cube, n-cube of any dimension, plain or mapped, any bounds):
+   the file is read back as exactly the same domain *)
+Theorem C15_roundtrip_single : forall p,
+  patch_wf p ->
+  exists fd, todict (patch_dom p) = Ok fd /\ from_dict fd = Ok (patch_dom p)
+             /\ fd_name fd = pname p /\ fd_dim fd = p_dim p /\ fd_dtype fd = One (dtype_of p)
+             /\ fd_interior fd = One (fint_of p) /\ fd_conn fd = [].
+Proof. exact roundtrip_single. Qed.
+Print Assumptions C15_roundtrip_single.
+
+(* the dtype dictionary rebuilds the patch: type and bounds *)
+Theorem C15_dtype_rebuilds_patch : forall p,
+  patch_wf p -> dtype_new (p_lname p) (dtype_of p) = Ok (ncube_domain (lpatch p)).
+Proof. exact dtype_roundtrip. Qed.
+Print Assumptions C15_dtype_rebuilds_patch.
+
+(* a joined domain (any number of patches, any well-formed connection list): the re-read domain has the
+   same name, dimension, patches (records carry type, bounds, mapping name), external boundary,
+   mapping, and the same interfaces with the same sides - with the DEFAULT orientation; and its export
+   is the same file content.  This is the statement modulo orientation (the minimal guard). *)
+Theorem C15_roundtrip_partial : forall pl cs nm D rl,
+  roundtrip_hyps pl cs nm D rl ->
+  todict D = Ok (fdict_of D) /\
+  exists D', from_dict (fdict_of D) = Ok D'
+    /\ d_name D' = d_name D /\ d_dim D' = d_dim D /\ d_interiors D' = d_interiors D
+    /\ d_boundary D' = d_boundary D /\ d_mapping D' = d_mapping D
+    /\ d_conn D' = map (reset_ornt (default_ornt (d_dim D))) (sort i_name (d_conn D))
+    /\ todict D' = Ok (fdict_of D).
+Proof. exact roundtrip_joined. Qed.
+Print Assumptions C15_roundtrip_partial.
+
+(* writing the re-read domain again produces the same file content *)
+Theorem C15_second_export_identical : forall pl cs nm D rl fd,
+  roundtrip_hyps pl cs nm D rl -> todict D = Ok fd ->
+  exists D', from_dict fd = Ok D' /\ todict D' = Ok fd.
+Proof. exact roundtrip_idempotent. Qed.
+Print Assumptions C15_second_export_identical.
+
+(* the full statement ("each interface ... with the same orientation") is false of the faithful model:
+   Connectivity.todict does not write the orientation, from_file joins with the default *)
+Theorem C15_roundtrip_orientation_refuted :
+  exists pl cs nm D rl D',
+    roundtrip_hyps pl cs nm D rl /\ from_dict (fdict_of D) = Ok D' /\
+    map i_ornt (sort i_name (d_conn D')) <> map i_ornt (sort i_name (d_conn D)).
+Proof. exact roundtrip_ornt_refuted. Qed.
+Print Assumptions C15_roundtrip_orientation_refuted.
+
+(* the hypotheses in decidable form, evaluated by the check on every generated case *)
+Theorem C15_hypotheses_decidable : forall pl cs nm,
+  roundtrip_wf_b pl cs nm = true -> exists D rl, roundtrip_hyps pl cs nm D rl.
+Proof. exact roundtrip_wf_b_sound. Qed.
+Print Assumptions C15_hypotheses_decidable.
+
+Theorem C15_patch_hypotheses_decidable : forall p, patch_wf_b p = true -> patch_wf p.
+Proof. exact patch_wf_b_sound. Qed.
+Print Assumptions C15_patch_hypotheses_decidable.
+
+(* non-vacuity: three mapped cubes in a chain with non-default orientations meet the hypotheses *)
+Definition nv15_pl : list patch :=
+  [ mkPatch "A" (Some "M1") 3 ["0"; "0"; "0"] ["1"; "1"; "1"];
+    mkPatch "B" (Some "M2") 3 ["1"; "0"; "0"] ["2"; "1"; "1"];
+    mkPatch "C" None 3 ["2"; "0"; "0"] ["3"; "1"; "1"] ].
+Definition nv15_cs : list conn :=
+  [ mkConn (mkSide (PIdx 1) 0 1) (mkSide (PIdx 2) 0 (-1)) (Some (O3 1 (-1) 1));
+    mkConn (mkSide (PIdx 0) 0 1) (mkSide (PIdx 1) 0 (-1)) None ].
+Example C15_nonvacuous :
+  roundtrip_wf_b nv15_pl nv15_cs "Omega" = true /\
+  patch_wf_b (mkPatch "L" (Some "F") 4 ["0"; "0"; "0"; "0"] ["1"; "2"; "3"; "4"]) = true.
+Proof. split; vm_compute; reflexivity. Qed.
